@@ -659,7 +659,18 @@ pub async fn run_async(plan: &PlanA, opts: &ExecOpts) -> RunResult {
                     res.violate("C05", "C05.dhcp_service_stopped_answering", format!("a well-formed DISCOVER from a client with a reservation got no reply after the hostile datagram before it (step {})", s.step), s.step);
                 }
             }
-            let pool = conf.allowed(&client.chaddr, lan);
+            /* the request's options as the server concatenates them (RFC 3396) */
+            let mut req_opts = crate::wa_plan::ReqOpts::new();
+            for (c, v) in &s.msg.options {
+                req_opts.entry(*c).or_default().extend_from_slice(v);
+            }
+            if conf.policies.iter().any(|p| p.uses_match_other()) {
+                res.probe("C02.policy_with_match_option");
+            }
+            let pool = conf.allowed_for(&client.chaddr, &req_opts, lan);
+            if replied && pool != conf.allowed(&client.chaddr, lan) {
+                res.probe("C02.request_options_select_the_pool");
+            }
 
             // ---- C13: who may be answered, and what a non-answer may touch
             if replied {
@@ -821,7 +832,7 @@ pub async fn run_async(plan: &PlanA, opts: &ExecOpts) -> RunResult {
                         } else if u32::from(x) == lan.broadcast() {
                             "broadcast_address"
                         } else if x == lan.server_ip {
-                            if conf.allowed_src(&client.chaddr, lan).1 { "server_own_address.from_policy_pool" } else { "server_own_address.from_addresses" }
+                            if conf.allowed_src(&client.chaddr, &req_opts, lan).1 { "server_own_address.from_policy_pool" } else { "server_own_address.from_addresses" }
                         } else if conf.policies.iter().any(|p| format!("{:?}", p).contains(&format!("{}", x))) {
                             "reserved_for_someone_else"
                         } else {
@@ -869,7 +880,7 @@ pub async fn run_async(plan: &PlanA, opts: &ExecOpts) -> RunResult {
                         Some(l) => {
                             /* the configured ceiling (apply-max-lease of the policy chain serving
                              * this client), 24 hours when none is configured; the floor is 5 minutes */
-                            let configured = conf.max_lease(&client.chaddr, lan);
+                            let configured = conf.max_lease(&client.chaddr, &req_opts, lan);
                             let max = configured.unwrap_or(86400);
                             if let Some(c) = configured {
                                 res.probe("C10.max_lease_configured");
